@@ -44,6 +44,12 @@ impl Elem for f64 {
     // position 2 is zero: "f64" uses +0.0 everywhere, "f64nz" uses -0.0 for bounds and +0.0 for
     // probes, "f64pz" the converse; "f64inf" maps the outer witnesses to -inf / +inf.
     fn from_pos(p: i64, n: i64, ty: &str, role: &str) -> Self {
+        if ty == "f64ext" {
+            // magnitudes whose `{}` rendering is very long (no exponent notation in Display for floats)
+            const EXT: [f64; 10] = [f64::MIN, -1.2345678901234567e300, -1.2345678901234567e-13, f64::MIN_POSITIVE,
+                                    1.0000000000000002e-13, 12345.678, 1.2345678901234567e31, 9.87654321e200, 1.7e308, f64::MAX];
+            return EXT[((p + 1).max(0) as usize).min(9)];
+        }
         if ty == "f64inf" && p < 0 { return f64::NEG_INFINITY; }
         if ty == "f64inf" && p >= n { return f64::INFINITY; }
         let x = (p - 2) as f64 * 0.25;
@@ -62,7 +68,9 @@ impl Elem for char {
     fn to_pos(&self, _n: i64, _ty: &str) -> Value { json!({"tag": "val", "v": *self as i64 - b'b' as i64}) }
 }
 impl Elem for String {
-    fn from_pos(p: i64, _n: i64, _ty: &str, _r: &str) -> Self { format!("s{}", p + 1) }
+    fn from_pos(p: i64, _n: i64, ty: &str, _r: &str) -> Self {
+        if ty == "Stringlong" { format!("{}{:03}", "a-long-element-".repeat(8), p + 1) } else { format!("s{}", p + 1) }
+    }
     fn to_pos(&self, _n: i64, _ty: &str) -> Value { json!({"tag": "val", "v": self[1..].parse::<i64>().unwrap() - 1}) }
 }
 
@@ -179,7 +187,11 @@ fn generic<T: Elem + std::panic::RefUnwindSafe>(case: &Value, ty: &str) -> Optio
         }
         "iv.display" => {
             let a: Interval<T> = mk(&case["a"], n, ty);
-            ev["res"] = json!(format!("{}", a));
+            // a Display implementation that fails makes `format!` panic: that is data (rendered as a marker)
+            ev["res"] = match std::panic::catch_unwind(std::panic::AssertUnwindSafe(|| format!("{}", a))) {
+                Ok(s) => json!(s),
+                Err(_) => json!("<Display panicked>"),
+            };
             ev["lo_s"] = json!(a.left().map(|x| format!("{}", x)).unwrap_or_default());
             ev["hi_s"] = json!(a.right().map(|x| format!("{}", x)).unwrap_or_default());
         }
@@ -345,6 +357,22 @@ fn arith(case: &Value, ty: &str) -> Value {
     ev
 }
 
+/// relative_to on bounds whose quotients are not exactly representable: the result bounds are
+/// reported as encoded floats (the validator checks that they are the correctly rounded quotients)
+fn rel_round(case: &Value) -> Value {
+    let mut ev = case.clone();
+    let s = case["scale"].as_i64().unwrap() as f64;
+    let a: Interval<f64> = mk_num(&case["a"], &|v| v as f64 / s);
+    let b: Interval<f64> = mk_num(&case["b"], &|v| v as f64 / s);
+    ev["out"] = match std::panic::catch_unwind(std::panic::AssertUnwindSafe(|| a.relative_to(&b))) {
+        Ok(Interval::TwoSided(x, y)) => json!({"tag": "ok", "iv": {"k": "two", "lo": enc::enc_f64(x), "hi": enc::enc_f64(y)}}),
+        Ok(Interval::UpperOneSided(x)) => json!({"tag": "ok", "iv": {"k": "up", "lo": enc::enc_f64(x)}}),
+        Ok(Interval::LowerOneSided(y)) => json!({"tag": "ok", "iv": {"k": "low", "hi": enc::enc_f64(y)}}),
+        Err(_) => json!({"tag": "panic"}),
+    };
+    ev
+}
+
 fn op_kind(c: &Value) -> &'static str {
     match c["op"].as_str().unwrap() {
         "iv.scalar" => "scalar",
@@ -426,14 +454,15 @@ pub fn run(case: &Value) -> Vec<Value> {
         "iv.eqhash" => { let mut ev = case.clone(); ev["res"] = eqhash(case, ty); ev }
         "iv.scalar" | "iv.binary" | "iv.relative_to" => arith(case, ty),
         "iv.approx" => approx(case),
+        "iv.relative_round" => rel_round(case),
         _ => {
             let r = match ty {
                 "i32" => generic::<i32>(case, ty),
                 "i8" => generic::<i8>(case, ty),
                 "u8" => generic::<u8>(case, ty),
-                "f64" | "f64nz" | "f64pz" | "f64inf" => generic::<f64>(case, ty),
+                "f64" | "f64nz" | "f64pz" | "f64inf" | "f64ext" => generic::<f64>(case, ty),
                 "char" => generic::<char>(case, ty),
-                "String" => generic::<String>(case, ty),
+                "String" | "Stringlong" => generic::<String>(case, ty),
                 t => panic!("type {}", t),
             };
             r.unwrap_or_else(|| json!({"op": "harness.unknown", "case": case}))
